@@ -123,7 +123,7 @@ def oraclesOnImpl (br : BR) (w : World) (exp : Exp) : List Step → List StepOut
   | _, _ => []
 
 /-- what the call did, for the distribution statistics -/
-def effectTags (st : Step) (w : World) (o : StepOut) : List String :=
+def effectTags (st : Step) (w : World) (exp : Exp) (o : StepOut) : List String :=
   let dropped := (w.deps.filter fun d => d.finalizer && (match o.w.find d.name with
     | some d' => !d'.finalizer
     | none => true)).length
@@ -134,11 +134,13 @@ def effectTags (st : Step) (w : World) (o : StepOut) : List String :=
   (if st.op = .fin ∧ o.res = .err ∧ dropped > 0 then ["fin:partial"] else []) ++
   (if scaled then ["upgrade:scaled"] else []) ++
   (if o.w.deps.length > w.deps.length then ["init:created"] else []) ++
-  (if st.op = .init ∧ o.res = .err ∧ o.calls ≤ 3 ∧ st.cfg.failAt.isNone then ["init:blockedByExpectation"] else [])
+  (if st.op = .init ∧ o.res = .err ∧ exp = .pending ∧ st.cfg.timedOut = false ∧ st.cfg.failAt.isNone ∧
+      RV.Oracle.CtlCanary.matchCount { (default : BR) with key := 0 } w = 0 ∧ o.w.deps.length = w.deps.length
+    then ["init:maybeBlockedByExpectation"] else [])
 
 def effectTagsRun (br : BR) (w : World) (exp : Exp) : List Step → List StepOut → List String
   | st :: steps, o :: outs =>
-    effectTags st (applyEvent br st.ev w exp).1 o ++ effectTagsRun br o.w o.exp steps outs
+    effectTags st (applyEvent br st.ev w exp).1 (applyEvent br st.ev w exp).2 o ++ effectTagsRun br o.w o.exp steps outs
   | _, _ => []
 
 def faultTag (st : Step) : String :=
